@@ -1436,6 +1436,8 @@ __wrap_connect(int fd, const struct sockaddr *sa, socklen_t len)
 	uint64_t delay = cf->conn_delay_max_ns
 	    ? sim_rand_range(SIM_RNG_NET, 0, cf->conn_delay_max_ns)
 	    : 0;
+	if (s->domain == AF_UNIX)
+		delay = 0; // Linux: connect() on a unix stream socket is synchronous
 	if (hole) {
 		// SYN vanishes: fails with ETIMEDOUT after a long time
 		s->state           = SS_CONNECTING;
